@@ -408,6 +408,11 @@ def _get_state(path: Path) -> str | None:
         modification_time = stat.st_mtime
         return hash_path(path, modification_time)
     if isinstance(stat, UPathStatResult):
-        return stat.as_info().get("ETag", "0")
+        # File systems without ETags (local, memory, ssh, ...) do not tell whether the
+        # content changed. Fall back to the hash of the content.
+        etag = stat.as_info().get("ETag")
+        if etag is not None:
+            return etag
+        return hash_path(path, stat.st_mtime)
     msg = "Unknown stat object."
     raise NotImplementedError(msg)
